@@ -14,6 +14,42 @@ CHECKS = {
         "lengths limited to the boundary classes in the cfg files.",
    technique="TLA+ spec (Wire.tla) + TLC exhaustive/simulation; TLC-generated behaviours replayed on the real encoders/decoders (spec->impl conformance)",
    design_ref="DESIGN.md 4.1, 5 (C03)"),
+ "C04": dict(
+   text="TLC checks Peer.tla (two engines, every delivery schedule incl. mid-token cuts: InOrder, AllDelivered, HcFirst) and "
+        "Script.tla (v3/v2 transcripts with data in any read) exhaustively; simulated behaviours are replayed on real ZmtpEngines "
+        "(NULL, PLAIN, CURVE, Noise_XX) step by step, and the same byte stream is fed to the real engine under the TLC schedule, "
+        "one read, token-per-read, byte-per-read and random cuts - the app actions must be identical.",
+   note="Engine level is exact; the socket-level path (session actor applying handshake output) is exercised by the socket part of "
+        "this check when built. Trusted: harness tokenizer/projection (harness/src/eng.rs, peer.rs, script.rs).",
+   technique="TLA+ spec (Engine/Peer/Script.tla) + TLC; TLC behaviours replayed on the real engine; segmentation metamorphic oracle on real bytes",
+   design_ref="DESIGN.md 4.2, 5 (C04)"),
+ "C05": dict(
+   text="TLC checks Peer.tla exhaustively for representative pairs x {NULL, PLAIN good/bad password, ENC good/bad server key} under "
+        "every schedule (NoStall, IncompatibleNeverUp, CompatibleNeverFails, Agree, liveness Converge/BothFail) and the verdict for "
+        "all 11x11 socket types over ZMTP/3 and ZMTP/2.0; all verdict behaviours and simulated schedules are replayed on two real "
+        "engines (real PLAIN/CURVE/Noise_XX), the outcome judged on the real HandshakeComplete / PeerError actions.",
+   note="EOF propagation (a closed side takes the transport down) is modelled, not exercised at engine level. The inproc table is a "
+        "listed known finding (C05-b). Trusted: harness compat table (RFC transcription) and projection.",
+   technique="TLA+ spec (Engine/Peer/Script.tla) + TLC incl. liveness; TLC behaviours replayed on two real engines",
+   design_ref="DESIGN.md 4.2, 5 (C05)"),
+ "C06": dict(
+   text="TLC checks Script.tla exhaustively: every secured role (PLAIN/ENC x listener/connector x ALLOW_ZMTP2) against the attacker "
+        "grammar to depth 6/7 (NoBypass, PlainClientPath, NoDataBeforeHc, NoV2WhenRefused); simulated attacker behaviours are "
+        "concretised to bytes and fed to the real engine (CURVE and Noise_XX), plus byte-level mutations; no HandshakeComplete / "
+        "DeliverMessage may appear for a peer that proved nothing.",
+   note="The attacker cannot produce secret-dependent rounds; crypto primitives trusted; depth-bounded grammar. Trusted: harness "
+        "token->bytes table (script.rs).",
+   technique="TLA+ spec (Engine/Script.tla) + TLC exhaustive attacker grammar; behaviours concretised and replayed on the real engine",
+   design_ref="DESIGN.md 4.2, 5 (C06)"),
+ "C07": dict(
+   text="TLC checks Script.tla (engine total on every token in every phase, ClosedStays, PartialBounded) for all roles and "
+        "Wire.tla (LimitExact, AccBound); behaviours are replayed on the real engine under catch_unwind with MAXMSGSIZE set, each "
+        "also with seeded byte mutations (bit flips, truncation, length extremes, invalid UTF-8, random bytes); MORE-runs are "
+        "expanded to the real 255-frame cap; limit verdicts go through every decoder entry point.",
+   note="Mutations are seeded samples. Handshake-interval and connection-slot behaviour of the session actor belong to the "
+        "socket-level part. Trusted: harness concretiser and buffer bound formula.",
+   technique="TLA+ spec (Engine/Script/Wire.tla) + TLC; behaviours and mutated variants replayed on the real engine/decoders",
+   design_ref="DESIGN.md 4.1-4.2, 5 (C07)"),
 }
 
 NA_DEFAULT = "check not built yet (construction in progress; see DESIGN.md section 10)"
